@@ -65,7 +65,12 @@ def run_impl(cfg):
             'expiration': kw['expiration'], 'max_buffered_examples': kw['max_buffered_examples'],
             'drop_incomplete': kw['drop_incomplete'], 'sort_key': kw['sort_key'], 'reverse_sort': kw['reverse_sort'],
             'batch_size': kw['batch_size'], 'len_key': 'len', 'max_padding_rate': kw['max_padding_rate'],
-            'max_total_size': kw['max_total_size']}) if view == 'direct' else src.batch_dynamic_time_series_bucket(**kw)
+            'max_total_size': kw['max_total_size']}) if view == 'direct' else (
+            src.batch_dynamic_bucket(lazy_dataset.core.DynamicTimeSeriesBucket, expiration=kw['expiration'],
+                                     max_buffered_examples=kw['max_buffered_examples'], drop_incomplete=kw['drop_incomplete'],
+                                     sort_key=kw['sort_key'], reverse_sort=kw['reverse_sort'], batch_size=kw['batch_size'],
+                                     len_key='len', max_padding_rate=kw['max_padding_rate'], max_total_size=kw['max_total_size'])
+            if view == 'generic' else src.batch_dynamic_time_series_bucket(**kw))
         if view == 'copy':
             ds = ds.copy()
         elif view == 'freeze':
@@ -151,7 +156,7 @@ def oracle(cfg, passes, log):
 
 
 # how the bucketing dataset is built and reached: constructor, method API, copy(), copy(freeze=True)
-VIEWS = ['direct', 'method', 'copy', 'freeze']
+VIEWS = ['direct', 'method', 'copy', 'freeze', 'generic']
 
 
 def grid(tier, rng):
